@@ -111,13 +111,14 @@ type Link struct {
 
 // Conn is the SUT-side endpoint (a net.Conn).
 type Conn struct {
-	l       *Link
-	rbuf    []byte
-	eof     bool
-	closed  bool
-	rq      simrt.WaitQ
-	rdl     time.Time
-	blocked bool
+	l        *Link
+	rbuf     []byte
+	eof      bool
+	closed   bool
+	rq       simrt.WaitQ
+	rdl      time.Time
+	rdlTimer *time.Timer
+	blocked  bool
 }
 
 // ---------------------------------------------------------------- SUT-facing API
@@ -301,6 +302,7 @@ var errClosed = net.ErrClosed
 
 //go:norace
 func (c *Conn) Read(b []byte) (int, error) {
+	simrt.Touch()
 	if len(b) == 0 {
 		return 0, nil
 	}
@@ -336,6 +338,7 @@ func (c *Conn) Read(b []byte) (int, error) {
 
 //go:norace
 func (c *Conn) Write(b []byte) (int, error) {
+	simrt.Touch()
 	if c.closed {
 		return 0, &net.OpError{Op: "write", Net: "tcp", Err: errClosed}
 	}
@@ -352,6 +355,7 @@ func (c *Conn) Write(b []byte) (int, error) {
 
 //go:norace
 func (c *Conn) Close() error {
+	simrt.Touch()
 	if c.closed {
 		return &net.OpError{Op: "close", Net: "tcp", Err: errClosed}
 	}
@@ -366,10 +370,29 @@ func (c *Conn) LocalAddr() net.Addr  { return c.l.Local }
 func (c *Conn) RemoteAddr() net.Addr { return c.l.Remote }
 
 //go:norace
-func (c *Conn) SetDeadline(t time.Time) error { c.rdl = t; return nil }
+func (c *Conn) SetDeadline(t time.Time) error { return c.SetReadDeadline(t) }
 
+// SetReadDeadline: a reader that is blocked re-checks the deadline now (a deadline in the past is
+// how net/http aborts its background read) and again when the deadline arrives.
+//
 //go:norace
-func (c *Conn) SetReadDeadline(t time.Time) error  { c.rdl = t; return nil }
+func (c *Conn) SetReadDeadline(t time.Time) error {
+	simrt.Touch()
+	c.rdl = t
+	if c.rdlTimer != nil {
+		c.rdlTimer.Stop()
+		c.rdlTimer = nil
+	}
+	if t.IsZero() {
+		return nil
+	}
+	if d := time.Until(t); d > 0 {
+		c.rdlTimer = time.AfterFunc(d, func() { c.rq.WakeAll() })
+	} else {
+		c.rq.WakeAll()
+	}
+	return nil
+}
 func (c *Conn) SetWriteDeadline(t time.Time) error { return nil }
 func (c *Conn) Link() *Link                        { return c.l }
 
@@ -419,6 +442,7 @@ func TLSListen(network, addr string, cfg *tls.Config) (net.Listener, error) {
 
 //go:norace
 func (l *Listener) Accept() (net.Conn, error) {
+	simrt.Touch()
 	simrt.YieldOp("accept")
 	for {
 		if l.closed {
